@@ -18,6 +18,10 @@ def set_width(w):
     W = w
 
 
+STEP = 0        # statements of the verified code executed on the current path
+WHERE = 0       # line of the statement being executed
+
+
 def set_ctx(c):
     global _CTX
     _CTX = c
